@@ -72,12 +72,12 @@ class _CalcReplay:
     def call_descriptor(self, I, case, a, ev):
         w = a["__w"]
         n, L = ev(w.n), ev(w.L)
-        if n > 8 or L > 8 or "factor" in a:
-            return None
+        if n > 8 or L > 8 or "round_base_decimals" in a:
+            return None      # the solver's rounding function is uninterpreted: its models do not replay; the probes do
         real = lambda v: v[0] / v[1] if isinstance(v, list) else float(v)
         return {"callee": self.name, "script": NATIVE, "kind": self.kind,
                 "thresholds": [real(ev(w.T(z3.IntVal(k)))) for k in range(n)], "values": [real(ev(w.R(z3.IntVal(k)))) for k in range(n)],
-                "bases": [real(ev(w.Bs(z3.IntVal(i)))) for i in range(L)]}
+                "bases": [real(ev(w.Bs(z3.IntVal(i)))) for i in range(L)], **({"factor": real(ev(B.zreal(a["factor"])))} if "factor" in a else {})}
 
     def judge_native(self, I, case, call, nat):
         if nat.get("kind") == "harness-error":
@@ -92,18 +92,31 @@ class MarginalRateCalc(_CalcReplay, Contract):
     name = f"{MR}.calc"
     prop = ("C08",)
     top_level = True
-    cases = ("default-factor", "factor")
+    cases = ("default-factor", "factor", "factor-and-rounding")
     descr = ("a marginal-rate scale returns, for each base, the sum over brackets of the rate times the part of the base inside the "
-             "bracket (with a threshold factor: thresholds scaled by it)")
+             "bracket (with a threshold factor: thresholds scaled by it; with rounding: scaled thresholds, parts and products each "
+             "rounded to the given decimals)")
 
     def setup(self, I, ctx, case):
         w = ScaleWorld(I, ctx, MR)
         a = {"self": w.scale, "tax_base": w.base, "__w": w}
-        if case == "factor":
+        if case != "default-factor":
             f = ctx.fresh_real("factor")
             ctx.assume(f > 0)
             a["factor"] = Sym(f)
+        if case == "factor-and-rounding":
+            d = ctx.fresh_int("decimals")
+            a["round_base_decimals"] = Sym(d)
         return a
+
+    def probes(self, case):
+        out = _CalcReplay.probes(self, case)
+        if case == "factor-and-rounding":
+            out = [dict(p, factor=1.5, decimals=0, thresholds=[0, 100.4, 200.3], values=[0.0, 1.0, 0.5], bases=[50.0, 151.0, 200.0, 301.0, 1000.0]) for p in out[:1]] + \
+                  [dict(p, factor=1.3, decimals=1, thresholds=[0, 100.12], values=[0.0, 1.0], bases=[500.0, 130.1, 130.2]) for p in out[:1]]
+        elif case == "factor":
+            out = [dict(p, factor=2.5) for p in out]
+        return out
 
     def post(self, I, ctx, a, out, old):
         w = a["__w"]
@@ -113,9 +126,14 @@ class MarginalRateCalc(_CalcReplay, Contract):
         i, k, rng = skolem(ctx, w)
         f = B.zreal(a["factor"]) if "factor" in a else z3.RealVal(1)
         b = w.Bs(i)
-        upper = z3.If(k + 1 < w.n, z3.If(b <= f * w.T(k + 1), b, f * w.T(k + 1)), b)
-        d = upper - f * w.T(k)
-        want = w.R(k) * z3.If(d >= 0, d, 0)
+        if "round_base_decimals" in a:
+            dec = B._z(a["round_base_decimals"])
+            rnd = lambda x: nparr.NPROUND(x, dec)
+        else:
+            rnd = lambda x: x
+        upper = z3.If(k + 1 < w.n, z3.If(b <= rnd(f * w.T(k + 1)), b, rnd(f * w.T(k + 1))), b)
+        d = upper - rnd(f * w.T(k))
+        want = rnd(w.R(k) * rnd(z3.If(d >= 0, d, 0)))
         return [("one-result-per-base", B._z(r.n) == w.L), ("one-term-per-bracket", B._z(r.inner) == w.n),
                 ("term-is-rate-times-the-part-of-the-base-inside-the-bracket", z3.Implies(rng, B.zreal(r.term(i, k)) == want))]
 
@@ -264,9 +282,17 @@ class BracketIndices(Contract):
     descr = ("the bracket reported for a base counts the thresholds at or below it (minus one), which for sorted thresholds is the "
              "bracket containing the base (lemma)")
 
+    cases = (None, "factor-and-rounding")
+
     def setup(self, I, ctx, case):
         w = ScaleWorld(I, ctx, MR)
-        return {"self": w.scale, "tax_base": w.base, "__w": w}
+        a = {"self": w.scale, "tax_base": w.base, "__w": w}
+        if case == "factor-and-rounding":
+            f = ctx.fresh_real("factor")
+            ctx.assume(f > 0)
+            a["factor"] = Sym(f)
+            a["round_decimals"] = Sym(ctx.fresh_int("decimals"))
+        return a
 
     def post(self, I, ctx, a, out, old):
         w = a["__w"]
@@ -280,9 +306,12 @@ class BracketIndices(Contract):
         if not isinstance(node, nparr.DotSum):
             return [("is-a-count-of-thresholds-minus-one", False)]
         i, k, rng = skolem(ctx, w)
+        th = w.T
+        if "round_decimals" in a:   # with a factor and rounding: the thresholds are scaled, then rounded
+            th = lambda q: nparr.NPROUND(B.zreal(a["factor"]) * w.T(q), B._z(a["round_decimals"]))
         return [("one-result-per-base", B._z(r.n) == w.L), ("one-term-per-threshold", B._z(node.inner) == w.n),
                 ("counts-exactly-the-thresholds-at-or-below-the-base",
-                 z3.Implies(rng, B.zreal(node.term(i, k)) == z3.If(w.T(k) <= w.Bs(i), z3.RealVal(1), z3.RealVal(0))))]
+                 z3.Implies(rng, B.zreal(node.term(i, k)) == z3.If(th(k) <= w.Bs(i), z3.RealVal(1), z3.RealVal(0))))]
 
 
 class AddBracket(Contract):
